@@ -733,8 +733,8 @@ func shrinkRace(bin, id string, v replayFile, workDir string) replayFile {
 	v.TapeLen = [3]int{full.size(), best.size(), attempts}
 	v.Detail = lastRep
 	for _, l := range strings.Split(lastOut, "\n") {
-		if strings.HasPrefix(l, "CASE ") {
-			v.Config = append(v.Config, strings.TrimPrefix(l, "CASE "))
+		if strings.HasPrefix(l, "CASEX ") {
+			v.Config = append(v.Config, strings.TrimPrefix(l, "CASEX "))
 		}
 	}
 	return v
